@@ -292,6 +292,8 @@ func c03Configs() []CfgLit {
 		{Origins: append(append([]string{}, richOrigins...), "https://a.b"), Credentialed: true, Methods: richMethods, RequestHeaders: richReqHdrs, ResponseHeaders: richResHdrs, MaxAge: 600, Status: 201, TolInsecure: true, TolPSL: true},
 		{Origins: c03SpliceHosts("https://"), Credentialed: true, ResponseHeaders: []string{"X-R"}, Methods: []string{"PUT"}, RequestHeaders: []string{"X-A"}},
 		{Origins: disc, Credentialed: true, PNANoCORS: true, ResponseHeaders: []string{"X-R"}, MaxAge: 30, Methods: []string{"*"}, RequestHeaders: []string{"*"}, TolInsecure: true, TolPSL: true, Status: 200},
+		// `*` among the exposed headers next to names that sort before it
+		{Origins: disc, ResponseHeaders: []string{"!x-foo", "*", "$cost", "x-bar"}, Methods: []string{"PUT"}, RequestHeaders: []string{"X-A"}, TolPSL: true},
 		// a pattern with a port wildcard listed first; one and the same name, in the same spelling, among the allowed
 		// request headers, the exposed response headers and the methods
 		{Origins: []string{"https://b.a:*", "http://[::1]:*", "https://*.a.b", "https://a.b"}, Credentialed: true, ResponseHeaders: []string{"X-Same", "X-R"}, MaxAge: 30, Methods: []string{"X-Same", "PUT"}, RequestHeaders: []string{"X-Same", "X-A"}, TolInsecure: true, TolPSL: true},
